@@ -46,6 +46,54 @@ func (cf c08Cfg) build() (stackage.Stack, *listModel) {
 	return s, m
 }
 
+// c08Nested: the index options belong to the stack that is being indexed. A nested stack (a direct
+// element, a Condition's expression) with its own combination of the two options, inside a parent with any
+// other combination: the second index of Traverse is resolved by the nested stack's options, the first by
+// the parent's.
+func c08Nested(c *Ctx) int {
+	n := 0
+	for pv := 0; pv < 4; pv++ {
+		for cv := 0; cv < 4; cv++ {
+			for L := 0; L <= 3; L++ {
+				for _, viaCond := range []bool{false, true} {
+					child := stackage.Or()
+					cm := &listModel{neg: cv&1 != 0, fwd: cv&2 != 0}
+					child.SetNegativeIndices(cm.neg).SetForwardIndices(cm.fwd)
+					vals := patternValues(L, (1<<L)-1, "c")
+					child.Push(vals...)
+					cm.push(vals...)
+					var el any = child
+					if viaCond {
+						el = stackage.Cond("k", stackage.Eq, child)
+					}
+					parent := stackage.And().SetNegativeIndices(pv&1 != 0).SetForwardIndices(pv&2 != 0).Push("p0", el, "p2")
+					firsts := []int{1}
+					if pv&1 != 0 {
+						firsts = append(firsts, -2)
+					}
+					for _, i1 := range firsts {
+						for _, i2 := range c08IndexValues(L) {
+							var gv any
+							var gok bool
+							n++
+							c.Transitions.Add(1)
+							desc := fmt.Sprintf("Traverse(%d,%d): parent AND [p0 <nested> p2] neg=%v fwd=%v, nested OR of %d elements (as a Condition's expression: %v) neg=%v fwd=%v", i1, i2, pv&1 != 0, pv&2 != 0, L, viaCond, cm.neg, cm.fwd)
+							if p := noPanic(func() { gv, gok = parent.Traverse(i1, i2) }); p != "" {
+								c.Violation("nested-index-options:panic", desc+" panicked: "+p, nil, 0)
+								continue
+							}
+							if wv, wok := cm.index(i2); gv != wv || gok != wok {
+								c.Violation("nested-index-options:Traverse", fmt.Sprintf("%s = (%s,%v), want (%s,%v): the nested stack's own options decide", desc, show(gv), gok, show(wv), wok), nil, 0)
+							}
+						}
+					}
+				}
+			}
+		}
+	}
+	return n
+}
+
 func c08IndexValues(L int) []int {
 	v := []int{math.MinInt, math.MinInt + 1, math.MaxInt - 1, math.MaxInt, math.MinInt / 2, math.MaxInt / 2}
 	for i := -L - 2; i <= L+2; i++ {
@@ -661,6 +709,7 @@ func c08GenericInts(c *Ctx) int {
 func init() {
 	register(&Check{ID: "C08", Engine: "B", Run: func(c *Ctx) {
 		installLockModel()
+		c.Bound["traversals_into_nested_stacks_with_their_own_index_options"] = c08Nested(c)
 		cases := c08IntCases(c)
 		c.Rule = "(ints) complete product of stacks (kinds, length 0..3/4, nil-slot patterns, negative/forward options, capacity none/Len/Len+1) x index values {MinInt, MinInt+1, MinInt/2, -Len-2..Len+2, MaxInt/2, MaxInt-1, MaxInt} x {Index, Remove, Replace, Traverse (1 and 2 indices), Insert, Defrag, Swap(i,j), Less(i,j)} against the reference list, plus every other int-taking method found by reflection with extreme values; (values) every Stack/Condition method found by reflection that takes `any` or an Operator x the catalogue of awkward values x 7 receivers, followed by String/Unmarshal/IsEqual/Valid/IsNesting/Traverse/Front/Back/Less/Reveal/Defrag/Pop/Reset on the same instance; oracle: no panic, failure + raw dump unchanged for indices that address no element, stack still initialised; non-trivial = distinct int cases whose index addresses no element + distinct value cases"
 		parallelFor(len(cases), func(i int) { c08IntRun(c, cases[i], true) })
